@@ -1,18 +1,22 @@
+import os
+
 from vlib.core import Query, Plan
 
 R = "vlib.cbmc:cbmc_query"
 H = "harness/C18/h_huff.c"
-FAST = ["_X86INTRIN_H_INCLUDED", "_IMMINTRIN_H_INCLUDED"]   # see harness/inflate_common/plans.py
+# Build-speed only: include guards of gcc's <x86intrin.h>/<immintrin.h> (see harness/inflate_common/plans.py)
+FAST = ["_X86INTRIN_H_INCLUDED", "_IMMINTRIN_H_INCLUDED"]
 UNITS = ["igzip/proc_heap_base.c", "igzip/flatten_ll.c"]
 # everything igzip.c links against in the portable-C configuration (harness #includes igzip.c itself)
 IGZIP_UNITS = ["igzip/igzip_base.c", "igzip/igzip_base_aliases.c", "igzip/igzip_icf_base.c", "igzip/igzip_icf_body.c",
                "igzip/hufftables_c.c", "igzip/huff_codes.c", "igzip/encode_df.c", "igzip/flatten_ll.c",
                "igzip/adler32_base.c", "igzip/proc_heap_base.c", "igzip/igzip_inflate.c", "crc/crc_base.c",
                "crc/crc_base_aliases.c"]
+LITLEN_UNW = 290
 
 
 def q(qid, hdef, unwind=None, unwindset=None, core=False, witness=False, family=None, weight=1.0, defines=(),
-      timeout=None, flags=None, mem_gb=None):
+      timeout=None, flags=None, mem_gb=None, finding_key=None):
     p = dict(harness=H, units=UNITS, defines=FAST + list(defines), hdefines=hdef, witness=witness)
     if unwind is not None:
         p["unwind"] = unwind
@@ -24,30 +28,86 @@ def q(qid, hdef, unwind=None, unwindset=None, core=False, witness=False, family=
         p["flags"] = flags
     if mem_gb:
         p["mem_gb"] = mem_gb
+    if finding_key:
+        p["finding_key"] = finding_key
     return Query(qid, R, p, core=core, family=family or qid.split("/")[0], weight=weight)
 
 
 def plan(tier, ctx):
     quick = tier == "quick"
     qs = []
-    # (b) run-length coding of code lengths
-    # arbitrary sequences (measured: cost grows ~2.5-3x per entry; nc=6 14 s, nc=7 42 s, nc=8 130 s, nc=10 >900 s)
+    # ---- (b) run-length coding of code lengths -------------------------------------------------
+    # arbitrary sequences (measured: cost x2.5-3 per entry; nc=6 14 s, nc=7 42 s, nc=8 130 s, nc=10 > 900 s)
     for nc in (list(range(1, 7)) if quick else list(range(1, 10))):
         core = nc == 5
         qs.append(q("rl_encode/nc%d" % nc, ["H_RL", "NC=%d" % nc], unwind=max(nc + 2, 22),
-                    unwindset=["write_rl.0:1", "write_rl.1:%d" % (nc // 6 + 2)], core=core, witness=core, weight=2 ** nc / 8.0))
-    # all sequences made of at most 2 runs (arbitrary boundary and values), long totals: run chunking by 6 /
-    # zero runs 3..10 / 11..138 in situ, run->run transition, final flush (measured nc=24: 71 s; nc=150: OOM 16 GB)
+                    unwindset=["write_rl.0:1", "write_rl.1:%d" % (nc // 6 + 2)], core=core, witness=core,
+                    weight=2 ** nc / 8.0))
+    # all sequences made of at most 2 runs (arbitrary boundary and values): chunking by 6, zero runs 3..10 / 11..138,
+    # run->run transition, final flush in situ (measured nc=24: 71 s; nc=150: OOM at 16 GB; 3 runs nc=12: 50-200 s)
     for nc in ([24] if quick else [24, 40]):
         qs.append(q("rl_runs2/nc%d" % nc, ["H_RL", "NC=%d" % nc, "RUNS=2"], unwind=max(nc + 2, 22),
-                    unwindset=["write_rl.0:2", "write_rl.1:%d" % (nc // 6 + 2)], core=False, witness=False, weight=30))
-    qs.append(q("write_rl/run300", ["H_WRL", "RUNMAX=300"], unwind=300 // 6 + 6, core=True, witness=True, weight=10))
-    # (c) packed tables and symbol conversions
+                    unwindset=["write_rl.0:2", "write_rl.1:%d" % (nc // 6 + 2)], weight=30,
+                    timeout=(300 if quick else None)))
+    if not quick:
+        qs.append(q("rl_runs3/nc12", ["H_RL", "NC=12", "RUNS=3"], unwind=22, unwindset=["write_rl.0:2", "write_rl.1:4"], weight=40))
+    qs.append(q("write_rl/run300", ["H_WRL", "RUNMAX=300"], unwind=300 // 6 + 6, core=True, witness=True, weight=20,
+                timeout=400))
+    # ---- (c) packed tables and symbol conversions, default and LONGER_HUFFTABLE layouts ----------
     qs.append(q("len_table/default", ["H_LEN"], unwind=40, core=True, witness=True, weight=5))
     qs.append(q("sym/default", ["H_SYM"], unwind=40, core=True, witness=True, weight=2))
     qs.append(q("dist_table/default", ["H_DIST"], unwind=40, core=True, witness=True, weight=5))
-    # (e) state guard of isal_deflate_set_hufftables
+    if not quick:
+        # 8192-entry distance table + dcodes offset 26: distance range case-split
+        for lo, hi in ((1, 8192), (8193, 32768)):
+            qs.append(q("dist_table/longer_%d_%d" % (lo, hi), ["H_DIST", "DIST_LO=%d" % lo, "DIST_HI=%d" % hi],
+                        defines=["LONGER_HUFFTABLE"], unwind=40,
+                        unwindset=["create_packed_dist_table.0:8200", "create_packed_dist_table.1:40"], weight=50))
+    # ---- (a, reduced) heapify/build_heap on plain uint64_t arrays (n=5 8 s, n=8 > 150 s) ----------
+    for hn in ([2, 4, 6] if quick else list(range(2, 9))):
+        qs.append(q("build_heap/n%d" % hn, ["H_HEAP", "HN=%d" % hn], unwind=hn + 2, core=(hn == 4), witness=(hn == 4),
+                    weight=2 ** hn / 4.0))
+    # ---- (d) are_hufftables_useable ------------------------------------------------------------
+    qs.append(q("useable/implemented_bound", ["H_USEABLE"], unwind=LITLEN_UNW, core=True, witness=True, weight=5))
+    if os.environ.get("VERIF_C18_USEABLE_EXACT"):
+        # FAILS on the unchanged tree (suspected defect, see `outside`); opt-in until the lead decides
+        qs.append(q("useable/exact", ["H_USEABLE", "USEABLE_EXACT"], unwind=LITLEN_UNW, weight=5,
+                    finding_key="'useable-len285-outside-length-max'"))
+    # ---- (e) state guard of isal_deflate_set_hufftables -----------------------------------------
     qs.append(Query("set_hufftables/all_states", R,
                     dict(harness="harness/C18/h_sethuff.c", units=IGZIP_UNITS, defines=FAST, hdefines=[], unwind=17,
-                         flags=["--arrays-uf-always"], witness=True), core=True, family="set_hufftables", weight=3))
-    return Plan("C18", "model_checking", qs, functions_encoded=[], bounds={}, stubs=[], assumptions=[], outside=[])
+                         flags=["--arrays-uf-always"], witness=True, timeout=400), core=True, family="set_hufftables",
+                    weight=10))
+    return Plan(
+        "C18", "model_checking", qs,
+        functions_encoded=["rl_encode", "write_rl", "create_packed_len_table", "create_packed_dist_table", "create_code_tables",
+                           "get_len_code", "get_dist_code", "compute_dist_code", "get_dist_icf_code", "get_len_icf_code",
+                           "convert_length_to_len_sym", "convert_dist_to_dist_sym", "dist_code_extra_bits[]",
+                           "are_hufftables_useable", "heapify", "build_heap", "isal_deflate_set_hufftables"],
+        bounds={
+            "rl_encode": "ALL length sequences over 0..15 of 1..6 entries (thorough 1..9); all sequences of <= 2 runs with "
+                         "24 (40) entries; write_rl: every (length 0..15, run 1..300)",
+            "packed tables": "29 length / 30 distance code words and lengths arbitrary (1..15 bits, code < 2^len); symbolic "
+                             "match length 3..258 and distance 1..32768; default layout (2-entry dist table) quick, "
+                             "LONGER_HUFFTABLE (8192 entries, dcodes offset 26) thorough",
+            "are_hufftables_useable": "all 286+30 code lengths arbitrary 0..15",
+            "build_heap": "n = 2,4,6 (thorough 2..8) arbitrary 64-bit keys",
+            "set_hufftables": "state over the whole enum, every scalar stream field arbitrary, type any int, table NULL or not",
+        },
+        stubs=["include guards _X86INTRIN_H_INCLUDED/_IMMINTRIN_H_INCLUDED predefined (build speed only; no intrinsic is "
+               "used in this configuration)"],
+        assumptions=["code words satisfy code < 2^length, 1 <= length <= 15 (what set_huff_codes produces)",
+                     "spec/rfc1951.h tables rfc_len_base/extra, rfc_dist_base/extra are RFC 1951 3.2.5",
+                     "set_hufftables: buffer[]/head[] hold zeros except one arbitrary element each (the observed one)"],
+        outside=["(a) build_huff_tree/gen_huff_code_lens/fix_code_lens/set_huff_codes on small alphabets: NOT decided "
+                 "(CBMC 6.11 mis-models struct heap_tree's anonymous union; array-backed variant > 26 GB at 4 symbols, DESIGN C18)",
+                 "(f) create_header/create_huffman_header (keeps a struct heap_tree local): not decided",
+                 "isal_create_hufftables / _subset as a whole (286+30 symbolic counts), incl. the argument wiring of its "
+                 "create_code_tables/create_packed_*_table calls; the stored deflate_hdr; round trips with custom tables",
+                 "rl_encode on arbitrary sequences of 10..316 entries (only <= 2-run sequences up to 40)",
+                 "assembly: proc_heap.asm, igzip_update_histogram*.asm",
+                 "SUSPECTED DEFECT (solver counterexample replayed natively, replay/C18-3482bd9a76.json): "
+                 "are_hufftables_useable leaves length symbol 285 out of the length maximum, so lit 15 + len(285) 15 + "
+                 "dist 15+13 = 58 bits is accepted although > 56 (MAX_BITBUF_BIT_WRITE); opt-in query useable/exact "
+                 "(VERIF_C18_USEABLE_EXACT=1)"],
+        trusted_base=["cbmc 6.11 C front end + SAT back end", "spec/rfc1951.h tables"])
